@@ -48,6 +48,15 @@ def number_values(ctx: Ctx):
 def text_values(rng):
     base = ["", " ", "a", "héllo", "multi\nline\ntext", "tab\there", "\U0001F600 astral \U00010348", "x" * 10000,
             "0", "1.5", "TRUE", "=A1", "'quoted'", '"dq"', "a,b;c", "\u0000nul", "ß", "‮ rtl", "é"]
+    # every character a reader or writer might be tempted to normalise: line/paragraph separators, C0/C1 controls,
+    # no-break and zero-width spaces, BOM, object replacement, non-characters (each alone, embedded, and all together)
+    special = ([chr(i) for i in range(1, 32)] + ["\x7f", "\x85", "\xa0", "\xad", " ", " ", "​", "‍",
+               "‎", "⁠", "﻿", "￼", "�", "￾", "￿", "　", " ", "᠎"])
+    for ch in special:
+        base.append(ch)
+        base.append("a" + ch + "b")
+    base.append("".join(special))
+    base += ["a\r\nb", "a\n\rb", "\n", "\n\n", " lead", "trail ", "\ttab", "nl\n"]
     for _ in range(20):
         k = rng.randrange(1, 30)
         base.append("".join(chr(rng.choice([rng.randrange(32, 127), rng.randrange(0xA0, 0x2FFF), rng.randrange(0x10000, 0x10FFFF)]))
@@ -121,7 +130,12 @@ def build_and_check(ctx: Ctx, name, nrows, ncols, writes, exe):
     table = doc.sheets[0].tables[0]
     case = {"doc": name, "shape": [nrows, ncols], "writes": len(writes)}
     for r, c, v in writes:
-        table.write(r, c, v)
+        try:
+            table.write(r, c, v)
+        except Exception as e:  # noqa: BLE001  every generated position is inside the documented limits
+            ctx.oracle_fail(f"write-raises:{type(e).__name__}", dict(case, pos=[r, c], value=repr(v)),
+                            f"write({r}, {c}, {v!r}) on {nrows}x{ncols} raised {type(e).__name__}: {e}")
+            return
     path = ctx.tmp / f"{name}.numbers"
     try:
         doc.save(path)
@@ -215,6 +229,103 @@ def two_stage(ctx: Ctx, pool, rng):
                                         {"doc": f"two-stage {label} save", "pos": [r, c], "value": repr(v)},
                                         f"{label} saved file, table {tab.name} ({r},{c}): wrote {v!r}, read {got!r}")
                     ctx.nontrivial(("two-stage", k, label, tab.name, r, c))
+
+
+def several_tables(ctx: Ctx, pool, rng):
+    """Several tables in one document - the one of the template, tables added to its sheet, tables on added sheets -
+    each written with values of every type (texts differ from table to table), one save, one reopen."""
+    from numbers_parser import Document
+    texts = [v for v in pool if isinstance(v, str) and v]
+    for k in range(2 if ctx.quick else 12):
+        doc = Document(num_rows=4, num_cols=3)
+        tabs = [doc.sheets[0].tables[0]]
+        tabs.append(doc.sheets[0].add_table(f"A{k}", num_rows=3, num_cols=3))
+        tabs.append(doc.sheets[0].add_table(f"B{k}", num_rows=2, num_cols=2))
+        doc.add_sheet(f"S{k}", f"C{k}", num_rows=3, num_cols=2)
+        tabs.append(doc.sheets[1].tables[0])
+        tabs.append(doc.sheets[1].add_table(f"D{k}", num_rows=2, num_cols=4))
+        want = []
+        for ti, t in enumerate(tabs):
+            w = {}
+            for j in range(6):
+                r, c = rng.randrange(t.num_rows + (j == 5)), rng.randrange(t.num_cols + (j == 4))
+                w[(r, c)] = f"table {ti} text {j} " + rng.choice(texts) if j % 2 == 0 else rng.choice(pool)
+            want.append(w)
+        # interleaved, so that no table is finished before the next one starts
+        for j in range(6):
+            for t, w in zip(tabs, want):
+                if j < len(w):
+                    (r, c), v = list(w.items())[j]
+                    t.write(r, c, v)
+        path = ctx.tmp / f"several_{k}.numbers"
+        case = {"doc": f"several-tables {k}"}
+        try:
+            doc.save(path)
+            d = Document(path)
+            back = [d.sheets[0].tables[0], d.sheets[0].tables[1], d.sheets[0].tables[2], d.sheets[1].tables[0], d.sheets[1].tables[1]]
+        except Exception as e:  # noqa: BLE001
+            ctx.oracle_fail("save-reopen-raises", case, f"{type(e).__name__}: {e}")
+            continue
+        for ti, (t, w) in enumerate(zip(back, want)):
+            for (r, c), v in w.items():
+                ctx.count("oracle-write-save-reopen")
+                got = t.cell(r, c).value
+                if not same_value(v, got):
+                    ctx.oracle_fail(f"value-changed-in-one-of-several-tables:{type(v).__name__}", dict(case, table=ti, pos=[r, c], value=repr(v)),
+                                    f"table #{ti} ({t.name}) ({r},{c}): wrote {v!r}, read {got!r}")
+                ctx.nontrivial(("several", k, ti, r, c))
+
+
+def default_fills(ctx: Ctx, pool, rng):
+    """Values written through the `default=` argument of add_row / add_column (the table grows and every new cell is
+    written): falsy values are values too."""
+    from numbers_parser import Document
+    vals = [False, True, 0, 0.0, -0.0, "", " ", timedelta(0), 1, "x", 2.5, timedelta(microseconds=1), datetime(2001, 1, 1)]
+    vals += [rng.choice(pool) for _ in range(4 if ctx.quick else 40)]
+    doc = Document(num_rows=2, num_cols=2)
+    t = doc.sheets[0].tables[0]
+    want = {}
+    for i, v in enumerate(vals):
+        case = {"doc": "default-fills", "value": repr(v), "how": "add_row" if i % 2 == 0 else "add_column"}
+        try:
+            if i % 2 == 0:
+                if i % 4 == 0:
+                    t.add_row(default=v)
+                    r0 = t.num_rows - 1
+                else:
+                    t.add_row(start_row=0, default=v)
+                    r0 = 0
+                    want = {(r + 1, c): x for (r, c), x in want.items()}
+                for c in range(t.num_cols):
+                    want[(r0, c)] = v
+            else:
+                if i % 4 == 1:
+                    t.add_column(default=v)
+                    c0 = t.num_cols - 1
+                else:
+                    t.add_column(start_col=0, default=v)
+                    c0 = 0
+                    want = {(r, c + 1): x for (r, c), x in want.items()}
+                for r in range(t.num_rows):
+                    want[(r, c0)] = v
+        except Exception as e:  # noqa: BLE001
+            ctx.oracle_fail(f"write-raises:{type(e).__name__}", case, f"{case['how']}(default={v!r}) raised {type(e).__name__}: {e}")
+            return
+    path = ctx.tmp / "default_fills.numbers"
+    try:
+        doc.save(path)
+        t2 = Document(path).sheets[0].tables[0]
+    except Exception as e:  # noqa: BLE001
+        ctx.oracle_fail("save-reopen-raises", {"doc": "default-fills"}, f"{type(e).__name__}: {e}")
+        return
+    for where, tab in (("open document", t), ("reopened file", t2)):
+        for (r, c), v in want.items():
+            ctx.count("oracle-write-save-reopen")
+            got = tab.cell(r, c).value
+            if not same_value(v, got) or type(got) is not type(v) and not (isinstance(v, (int, float)) and not isinstance(v, bool) and isinstance(got, (int, float)) and not isinstance(got, bool)):
+                ctx.oracle_fail(f"default-value-changed:{type(v).__name__}", {"doc": "default-fills", "pos": [r, c], "value": repr(v)},
+                                f"{where} ({r},{c}): filled with default {v!r}, read {got!r}")
+            ctx.nontrivial(("default", where, r, c))
 
 
 def run(ctx: Ctx) -> int:
@@ -317,7 +428,7 @@ def run(ctx: Ctx) -> int:
     pi = 0
     for si, (nr, nc) in enumerate(shapes):
         writes = []
-        k = 40 if ctx.quick else 200
+        k = 64 if ctx.quick else 200
         for _ in range(k):
             v = pool[pi % len(pool)]
             pi += 1
@@ -339,6 +450,8 @@ def run(ctx: Ctx) -> int:
     build_and_check(ctx, "grow_to_512", 200, 1, [(511, 0, 7), (256, 0, "first row of the second tile")], exe)
     # saving may be repeated: write, save, write more, save again, reopen the second file
     two_stage(ctx, pool, rng)
+    several_tables(ctx, pool, rng)
+    default_fills(ctx, pool, rng)
     # a document holding the whole pool in one column (all types, many tiles when thorough)
     writes = [(i, 0, v) for i, v in enumerate(pool)]
     build_and_check(ctx, "pool", 2, 1, writes, exe)
